@@ -72,7 +72,13 @@ impl ServerState {
   /// - Global context updated
   /// - Dependency graph updated
   /// - recheck_set is the conservative estimate of moduled need to recheck
-  fn recheck(&mut self, mut error_set: ErrorSet, recheck_set: &HashSet<ModuleReference>) {
+  /// - reparsed_set contains the modules whose syntax errors are already in error_set
+  fn recheck(
+    &mut self,
+    mut error_set: ErrorSet,
+    recheck_set: &HashSet<ModuleReference>,
+    reparsed_set: &HashSet<ModuleReference>,
+  ) {
     #[cfg(samlang_verif)]
     {
       self.verif_last_recheck = recheck_set.iter().copied().collect();
@@ -94,6 +100,21 @@ impl ServerState {
     for (mod_ref, checked, local_errors) in results {
       self.checked_modules.insert(mod_ref, checked);
       error_set.merge(local_errors);
+    }
+
+    // Syntax errors only come from parsing. A module that is rechecked without being reparsed
+    // keeps the ones it already had.
+    for mod_ref in recheck_set {
+      if !reparsed_set.contains(mod_ref)
+        && self.parsed_modules.contains_key(mod_ref)
+        && let Some(existing_errors) = self.errors.get(mod_ref)
+      {
+        for e in existing_errors {
+          if let samlang_errors::ErrorDetail::InvalidSyntax(reason) = &e.detail {
+            error_set.report_invalid_syntax_error(e.location, reason.clone());
+          }
+        }
+      }
     }
 
     // Collating Errors
@@ -161,8 +182,8 @@ impl ServerState {
       self.parsed_modules.insert(mod_ref, parsed);
     }
     self.dep_graph = DependencyGraph::new(&self.parsed_modules);
-    let recheck_set = self.dep_graph.affected_set(initial_update_set);
-    self.recheck(error_set, &recheck_set);
+    let recheck_set = self.dep_graph.affected_set(initial_update_set.clone());
+    self.recheck(error_set, &recheck_set, &initial_update_set);
   }
 
   pub fn rename_module(&mut self, renames: Vec<(ModuleReference, ModuleReference)>) {
@@ -170,8 +191,10 @@ impl ServerState {
     let recheck_set = self
       .dep_graph
       .affected_set(renames.iter().flat_map(|(a, b)| vec![*a, *b].into_iter()).collect());
+    let mut reparsed_set = HashSet::new();
     for (old_mod_ref, new_mod_ref) in renames {
       if let Some(source) = self.string_sources.remove(&old_mod_ref) {
+        reparsed_set.insert(new_mod_ref);
         self.parsed_modules.remove(&old_mod_ref).unwrap();
         let parsed = samlang_parser::parse_source_module_from_text(
           &source,
@@ -189,7 +212,7 @@ impl ServerState {
       self.checked_modules.remove(&old_mod_ref);
     }
     self.dep_graph = DependencyGraph::new(&self.parsed_modules);
-    self.recheck(error_set, &recheck_set);
+    self.recheck(error_set, &recheck_set, &reparsed_set);
   }
 
   pub fn remove(&mut self, module_references: &[ModuleReference]) {
@@ -201,7 +224,7 @@ impl ServerState {
       self.global_cx.remove(mod_ref);
     }
     self.dep_graph = DependencyGraph::new(&self.parsed_modules);
-    self.recheck(ErrorSet::new(), &recheck_set);
+    self.recheck(ErrorSet::new(), &recheck_set, &HashSet::new());
   }
 }
 
